@@ -7,7 +7,7 @@ name=$(basename "$cfg" .cfg)
 mkdir -p /verif/work
 cd /verif/spec
 log=/verif/work/$name.log
-JAVA_TOOL_OPTIONS="${JAVA_TOOL_OPTIONS:--Xss512m}" timeout ${TLC_TIMEOUT:-3600} tlc -workers $workers -metadir /verif/work/meta_$name -cleanup -noGenerateSpecTE -config "$cfg" "$@" "$mod" > $log 2>&1
+JAVA_TOOL_OPTIONS="${JAVA_TOOL_OPTIONS:--Xss64m -Xmx8g -XX:+UseParallelGC}" timeout ${TLC_TIMEOUT:-600} tlc -workers $workers -metadir /verif/work/meta_$name -cleanup -noGenerateSpecTE -config "$cfg" "$@" "$mod" > $log 2>&1
 rc=$?
 grep '^"REPLAY' $log > /verif/work/$name.replay
 grep -v '^"REPLAY\|^Computed\|^Linting\|^Parsing\|^Semantic' $log > /verif/work/$name.short
